@@ -254,7 +254,8 @@ CHECKS = {
         "level": "exploration",
         "technique": "rapid property-based testing against a first-bad-block / wound-tiling reference model over generated contents and write slicings",
         "level_text": ("1-3 files per pool (sizes around block multiples, empty) x written content (equal, flipped in a set of blocks, truncated, "
-                       "block-aligned prefix, extended, unrelated, one block dropped or doubled so that later blocks equal a neighbouring signed block) x write slicing (1..50, 1..3 blocks, boundary-straddling, bytewise; "
+                       "block-aligned prefix, extended, unrelated, one block dropped or doubled so that later blocks equal a neighbouring signed block, three neighbouring "
+                       "bytes changed by +1,-2,+1 so that the block differs but keeps its rolling hash) x write slicing (1..50, 1..3 blocks, boundary-straddling, bytewise; "
                        "in 1/3 of the files the caller keeps writing the rest after a failed Write and only then closes) x mode. "
                        "Error mode: failure iff the model finds a first bad block b; the failing call is the one completing b; the inner pool "
                        "received exactly written[:b*64KiB] (everything when none). Wound modes (plain and with the aggregate filter): markers in "
@@ -266,7 +267,7 @@ CHECKS = {
         "rule": ("rapid draws (files, written variants, slicings, mode). Non-trivial: a write that straddles a block boundary together with a bad "
                  "block that is not the first (error mode), or a differing block that is not the first (wound modes). Distinct: SHA-1 of the spec."),
         "assumptions": [],
-        "required_classes": {"quick": ["mode:error", "mode:wounds", "mode:aggregate", "bad-block:not-first", "bad-block:beyond-signed-count", "write:straddles-block-boundary"],
+        "required_classes": {"quick": ["mode:error", "mode:wounds", "mode:aggregate", "bad-block:not-first", "bad-block:beyond-signed-count", "bad-block:same-weak-hash", "write:straddles-block-boundary"],
                              "thorough": ["mode:error", "mode:wounds", "mode:aggregate", "bad-block:not-first", "bad-block:beyond-signed-count", "write:straddles-block-boundary"]},
         "stages": [rapid("validatingpool", "TestProp", 48000, 2000000, qs=16, ts=16, qt=600, tt=5400),
                    rapid("viapatcher", "TestViaPatcher", 4800, 192000, qs=16, ts=16, qt=600, tt=5400)],
